@@ -254,7 +254,8 @@ def lemma_no_silent_clamp(model: Model, run: Run, mr) -> None:
                     ok = ("LEN>=", x, norm(up)) in facts
                     if not ok and isinstance(up, ast.BinOp) and isinstance(up.op, ast.Add) and isinstance(up.left, ast.Name) and const_int(up.right) == 1:
                         # x[i:i + 1] with 0 <= i < len(x)
-                        ok = ("LTLEN", up.left.id, x) in facts or ("IDX", up.left.id, x) in facts
+                        ok = ("LTLEN", up.left.id, x) in facts or ("IDX", up.left.id, x) in facts or \
+                            any(f[0] == "LT" and f[1] == up.left.id and (("LEN>=", x, f[2]) in facts or ("ISLEN", f[2], x) in facts) for f in facts)     # i < V <= len(x)
                 run.ob("T1-no-silent-clamp", ok, {"function": fi.name, "slice": norm(n)})
                 if not ok:
                     run.fail(Finding("T1-no-silent-clamp", fq, norm(n), f"`{norm(n)}` is taken without a dominating check that `{x}` has at least `{norm(up)}` octets: "
